@@ -78,6 +78,35 @@ TRACKED_TOTAL = {
     "Into::into": "blanket impl over From::from",
     "From::from": "conversion impls of std are total",
     "Try::branch": "discriminant test",
+    # combinators that only forward to the closure / value they are given (the attribute is there for the closure's sake;
+    # the closure's own body is part of the census)
+    "Option::<T>::unwrap_or_else": "calls the closure on None",
+    "Option::<T>::map_or_else": "calls one of the closures",
+    "Option::<T>::map_or": "calls the closure on Some",
+    "Option::<T>::map": "calls the closure on Some",
+    "Option::<T>::and_then": "calls the closure on Some",
+    "Option::<T>::or_else": "calls the closure on None",
+    "Option::<T>::ok_or_else": "calls the closure on None",
+    "Option::<T>::filter": "calls the closure on Some",
+    "Option::<T>::unwrap_or": "returns the default",
+    "Option::<T>::unwrap_or_default": "returns Default::default()",
+    "Option::<T>::get_or_insert_with": "calls the closure on None",
+    "Option::<T>::is_some_and": "calls the closure on Some",
+    "Option::<T>::is_none_or": "calls the closure on Some",
+    "Result::<T, E>::unwrap_or_else": "calls the closure on Err",
+    "Result::<T, E>::map_or_else": "calls one of the closures",
+    "Result::<T, E>::map_or": "calls the closure on Ok",
+    "Result::<T, E>::map": "calls the closure on Ok",
+    "Result::<T, E>::map_err": "calls the closure on Err",
+    "Result::<T, E>::and_then": "calls the closure on Ok",
+    "Result::<T, E>::or_else": "calls the closure on Err",
+    "Result::<T, E>::unwrap_or": "returns the default",
+    "Result::<T, E>::unwrap_or_default": "returns Default::default()",
+    "bool::then": "calls the closure on true",
+    "bool::then_some": "wraps the value",
+    "FnOnce::call_once": "the callee's body is part of the census",
+    "FnMut::call_mut": "the callee's body is part of the census",
+    "Fn::call": "the callee's body is part of the census",
     "BitXor::bitxor": "bit operations on primitive integers (by value or by reference) cannot overflow",
     "BitAnd::bitand": "bit operation",
     "BitOr::bitor": "bit operation",
